@@ -319,6 +319,32 @@ theorem C15_slock_blocks_mixed :
     firstBlocked true true demoSer mixedSchedule (initSys (some (demoSer [0, 0])) [0, 0]) 0
       = some 5 := by decide
 
+/-- Convergence does not depend on `state.lock`: with the persist lock alone (the code after the
+    first repair, where a save may read a mix of two states) the same statement holds — a change that
+    disturbs the reads of a running save submits, when it ends, a job of its own, and that job can take
+    the persist lock only after the disturbed save has released it, so it reads after the change.  What
+    the missing `state.lock` costs is atomicity (`C15_legacy_mixed_counterexample`), not convergence. -/
+theorem C15_converge_without_state_lock (ser : Vec → Content) (init : Option Content) (mem0 : Vec)
+    (ls : List Label) (s : Sys) (h : exec true false ser ls (initSys init mem0) = some s)
+    (hq : ∀ l ∈ ls, l.quiet = true) (hjobs : ∃ j, s.jobs j ≠ .unspawned) (hdone : Quiescent s)
+    (hstop : s.chg = false) : s.target = some (ser s.mem) := by
+  have hc := convU_exec (init := init) ls (atomInv_init ser init mem0) (mutex_init init mem0)
+    (convU_init ser init mem0) hq h
+  rcases hc with hc | hc | ⟨j, hc⟩ | ⟨j, hc⟩ | ⟨hc, _⟩
+  · obtain ⟨j, hj⟩ := hjobs
+    exact absurd (hc j) hj
+  · rw [hstop] at hc; cases hc
+  · rcases hdone j with e | ⟨r, e⟩ <;> simp [e, Pc.early] at hc
+  · rcases hdone j with e | ⟨r, e⟩ <;> simp [e, Pc.good, Pc.carries] at hc
+  · exact hc
+
+/-- non-vacuity: the mixed-snapshot schedule, continued without the kill until job 1 has run, ends with
+    the file equal to memory although job 0 installed a mix in between -/
+example : ∃ s, exec true false demoSer (mixedSchedule.dropLast ++ List.replicate 13 (.adv 1))
+      (initSys (some (demoSer [0, 0])) [0, 0]) = some s ∧ quiescentB s = true ∧ s.chg = false ∧
+      s.mem = [1, 1] ∧ s.target = some (demoSer [1, 1]) :=
+  ⟨_, rfl, by decide, by decide, by decide, by decide⟩
+
 /-! ### non-vacuity -/
 
 /-- a fault-free two-job schedule of the repaired code with a pairing change while job 0 holds the
